@@ -427,8 +427,8 @@ theorem aux_product_get {kind : Kind} (hk : kind.auxNdims ≠ 0) (a A : ND K) {o
       simpa using this
   all_goals simp [Kind.auxNdims] at hk
 
-theorem apply_ok_parts {X Y : Obj K} {A : ND K} {mode : Bcast}
-    (h : X.apply A mode = .ok Y) :
+theorem apply_ok_parts {X Y : Obj K} {A AinvT : ND K} {mode : Bcast}
+    (h : X.apply A AinvT mode = .ok Y) :
     Y.kind = X.kind ∧ matrixProduct X.proj A X.kind.unitNdims 2 mode = .ok Y.proj ∧
     (X.aux = none → Y.aux = none) ∧
     (∀ a, X.aux = some a → ∃ a', matrixProduct a A X.kind.auxNdims 2 mode = .ok a' ∧ Y.aux = some a') := by
@@ -452,8 +452,8 @@ theorem apply_ok_parts {X Y : Obj K} {A : ND K} {mode : Bcast}
           | error e => rw [hm] at ha'; simp [Except.map] at ha'
           | ok a'' => rw [hm] at ha'; simp [Except.map] at ha'; exact ⟨a'', rfl, ha'.symm⟩
 
-theorem inv_step_apply (r : K → K) {X Y : Obj K} {A : ND K} (hX : Inv r X)
-    (hA : OpOk r X.kind (.apply A)) (h : X.step r (.apply A) = .ok Y) : Inv r Y := by
+theorem inv_step_apply (r : K → K) {X Y : Obj K} {A AinvT : ND K} (hX : Inv r X)
+    (hA : OpOk r X.kind (.apply A AinvT)) (h : X.step r (.apply A AinvT) = .ok Y) : Inv r Y := by
   simp only [Obj.step] at h
   obtain ⟨hYk, hYp, hYnone, hYsome⟩ := apply_ok_parts h
   obtain ⟨nA, hAs, hIso⟩ := hA
@@ -793,7 +793,7 @@ theorem step_kind (r : K → K) {X Y : Obj K} {op : ObjOp K} (h : X.step r op = 
   cases op <;> simp only [Obj.step] at h
   case copy => cases h; rfl
   case astype => cases h; rfl
-  case apply A => exact (apply_ok_parts h).1
+  case apply A AinvT => exact (apply_ok_parts h).1
   case reshape s =>
     split at h
     · cases h
@@ -822,7 +822,7 @@ theorem inv_step_all (r : K → K) {X Y : Obj K} {op : ObjOp K} (hX : Inv r X) (
     (h : X.step r op = .ok Y) : Inv r Y := by
   cases op
   case copy => exact inv_step_copy r hX h
-  case apply A => exact inv_step_apply r hX hop h
+  case apply A AinvT => exact inv_step_apply r hX hop h
   case reshape s => exact inv_step_reshape r hX h
   case flatten => exact inv_step_flatten r hX h
   case index k => exact inv_step_index r hX h
